@@ -486,12 +486,16 @@ impl Property for C20 {
     fn id(&self) -> &'static str {
         "C20"
     }
-    fn generate(&self, rng: &mut Rng, _tier: Tier) -> Box<dyn Case> {
+    fn generate(&self, rng: &mut Rng, tier: Tier) -> Box<dyn Case> {
         let mut cfg = GenCfg::swarm(rng);
         cfg.tron = false;
         cfg.rnd = rng.pct(20);
         if rng.pct(60) {
             cfg.size = *rng.pick(&[3usize, 5, 8, 12]);
+            if tier == Tier::Thorough && rng.pct(35) {
+                // the thorough tier also explores larger programs
+                cfg.size *= 2;
+            }
             cfg.rems = false;
             cfg.stop = false;
             cfg.end_mid = false;
